@@ -20,6 +20,7 @@ from passlib.utils.compat import (
     unicode_or_bytes,
 )
 from passlib.utils.decor import deprecated_method, memoized_property
+from passlib.utils import MAX_PASSWORD_SIZE
 
 # local
 __all__ = [
@@ -105,6 +106,13 @@ def _is_handler_registered(handler):
 
 #: list of keys allowed under wildcard "all" scheme w/o a security warning.
 _global_settings = set(["truncate_error", "vary_rounds"])
+
+
+def _check_secret_size(secret):
+    """size check of :func:`passlib.utils.handlers.validate_secret`, for the calls
+    which never reach a hasher (``hash=None``)"""
+    if isinstance(secret, unicode_or_bytes) and len(secret) > MAX_PASSWORD_SIZE:
+        raise exc.PasswordSizeError(MAX_PASSWORD_SIZE)
 
 
 class _CryptConfig:
@@ -1755,6 +1763,9 @@ class CryptContext:
         if hash is None:
             # convenience feature -- let apps pass in hash=None when user
             # isn't found / has no hash; useful because it invokes dummy_verify()
+            # (the secret is checked as for an account which does exist: an oversized
+            #  password must not tell the two cases apart)
+            _check_secret_size(secret)
             self.dummy_verify()
             return False
         record = self._get_or_identify_record(hash, scheme, category)
@@ -1836,6 +1847,7 @@ class CryptContext:
         if hash is None:
             # convenience feature -- let apps pass in hash=None when user
             # isn't found / has no hash; useful because it invokes dummy_verify()
+            _check_secret_size(secret)
             self.dummy_verify()
             return False, None
         record = self._get_or_identify_record(hash, scheme, category)
